@@ -102,4 +102,251 @@ theorem decHandle_blk (t h b num : Nat) (s1 : St) (fs : List Bool) : (decHandle 
       · rfl
       · exact call_hdl_blk _ _ h rfl
 
+
+theorem liveAt_of_blk {s s1 : St} {b : Nat} (h : s1.blk b = s.blk b) (h' : Nat) : liveAt s1 b h' = liveAt s b h' := by
+  simp only [liveAt, h]
+
+/-- What `releaseByHandle` on one block does: other blocks untouched, no handle gains live
+addresses in the block, and on success the released handle has none left there. -/
+theorem relBlock_spec (imm : Bool) (t h b : Nat) (s : St) (fs : List Bool) :
+    (∀ b', b' ≠ b → (relBlock imm t h b s fs).1.blk b' = s.blk b') ∧
+    (∀ h', liveAt (relBlock imm t h b s fs).1 b h' ≤ liveAt s b h') ∧
+    ((relBlock imm t h b s fs).2.2 = false → liveAt (relBlock imm t h b s fs).1 b h = 0) := by
+  have triv : (∀ b', b' ≠ b → s.blk b' = s.blk b') ∧ (∀ h', liveAt s b h' ≤ liveAt s b h') :=
+    ⟨fun _ _ => rfl, fun _ => Nat.le_refl _⟩
+  unfold relBlock
+  cases pop fs with
+  | mk f1 fs1 =>
+  dsimp only
+  split
+  · exact ⟨triv.1, triv.2, fun hc => by cases hc⟩
+  · split
+    · rename_i hb
+      exact ⟨triv.1, triv.2, fun _ => by simp [liveAt, hb]⟩
+    · rename_i r v hb
+      split
+      · rename_i hz
+        exact ⟨triv.1, triv.2, fun _ => by simpa [liveAt, hb] using hz⟩
+      · split
+        · exact ⟨triv.1, triv.2, fun hc => by cases hc⟩
+        · rename_i res hr
+          cases pop fs1 with
+          | mk f2 fs2 =>
+          dsimp only
+          split
+          · exact ⟨triv.1, triv.2, fun hc => by cases hc⟩
+          · obtain ⟨ho, hbb⟩ := call_blk_relh s t h b r v _ _ res hb hr
+            have hrel := (rmw_relh hr).2.2
+            generalize hg1 : (if imm = true then coolOrds 0 v.slots else []) = g1 at *
+            generalize hg2 : (if imm = true then ordsOf h 0 v.slots else []) = g2 at *
+            have hd := decHandle_blk t h b (liveCount h v.slots) (call s (blockWriteCall t h b r g1 g2 res)) fs2
+            generalize call s (blockWriteCall t h b r g1 g2 res) = s1 at *
+            generalize decHandle t h b (liveCount h v.slots) s1 fs2 = d at *
+            have hle : ∀ h', liveAt s1 b h' ≤ liveAt s b h' ∧ (h' = h → liveAt s1 b h' = 0) := by
+              intro h'
+              rcases hbb with hn | ⟨r', hs⟩
+              · simp [liveAt, hn]
+              · simp only [liveAt, hs, hb, hrel h']
+                split <;> simp_all
+            have e1 : d.1.blk b = s1.blk b := by rw [hd]
+            refine ⟨fun b' hne => ?_, fun h' => ?_, fun _ => ?_⟩
+            · rw [hd]; exact ho b' hne
+            · rw [liveAt_of_blk e1]; exact (hle h').1
+            · rw [liveAt_of_blk e1]; exact (hle h).2 rfl
+
+/-- The loop over the handle's blocks. -/
+theorem relBlocks_spec (imm : Bool) (t h : Nat) : ∀ (order : List Nat) (s : St) (fs : List Bool),
+    (∀ b, b ∉ order → (relBlocks imm t h order s fs).1.blk b = s.blk b) ∧
+    (∀ b h', liveAt (relBlocks imm t h order s fs).1 b h' ≤ liveAt s b h') ∧
+    ((relBlocks imm t h order s fs).2.2 = false → ∀ b ∈ order, liveAt (relBlocks imm t h order s fs).1 b h = 0)
+  | [], s, fs => by simp [relBlocks]
+  | b :: bs, s, fs => by
+    have hb := relBlock_spec imm t h b s fs
+    unfold relBlocks
+    cases hr : relBlock imm t h b s fs with
+    | mk s1 rest =>
+    cases rest with
+    | mk fs1 e =>
+    rw [hr] at hb
+    simp only at hb
+    have hmono : ∀ b' h', liveAt s1 b' h' ≤ liveAt s b' h' := by
+      intro b' h'
+      by_cases e' : b' = b
+      · subst e'; exact hb.2.1 h'
+      · rw [liveAt_of_blk (hb.1 b' e')]; exact Nat.le_refl _
+    cases e with
+    | true =>
+      simp only
+      refine ⟨fun b' hn => ?_, hmono, fun hc => by cases hc⟩
+      exact hb.1 b' (fun e' => hn (e' ▸ List.mem_cons_self ..))
+    | false =>
+      simp only
+      have ih := relBlocks_spec imm t h bs s1 fs1
+      refine ⟨fun b' hn => ?_, fun b' h' => Nat.le_trans (ih.2.1 b' h') (hmono b' h'), fun hok b' hm => ?_⟩
+      · have h1 : b' ≠ b := fun e' => hn (e' ▸ List.mem_cons_self ..)
+        have h2 : b' ∉ bs := fun e' => hn (List.mem_cons_of_mem _ e')
+        rw [ih.1 b' h2]; exact hb.1 b' h1
+      · by_cases hin : b' ∈ bs
+        · exact ih.2.2 hok b' hin
+        · have : b' = b := by
+            rcases List.mem_cons.1 hm with e' | e'
+            · exact e'
+            · exact absurd e' hin
+          subst this
+          have h0 := hb.2.2 rfl
+          have := ih.2.1 b' h
+          omega
+
+
+
+/-- Reachable-and-clean: the C19 invariants hold and no stale-delete decrement happened. -/
+def P (s : St) : Prop := Inv s ∧ s.stale = 0
+
+theorem call_stale (s : St) (c : Call) (hp : ∀ h n, c.pl ≠ Payload.staleDel h n) : (call s c).stale = s.stale := by
+  unfold call
+  cases hs : step s (.call c) with
+  | none => rfl
+  | some s' =>
+    simp only [Option.getD_some]
+    simp only [step] at hs
+    split at hs
+    · split at hs
+      · split at hs
+        · exact applyWrite_stale hs
+        · cases hs
+      · injection hs with hs; subst hs; rfl
+    · split at hs
+      · rename_i hpl; exact absurd hpl (hp _ _)
+      · injection hs with hs; subst hs; rfl
+    · injection hs with hs; subst hs; rfl
+
+theorem P_call {s : St} (c : Call) (hp : ∀ h n, c.pl ≠ Payload.staleDel h n) (h : P s) : P (call s c) := by
+  refine ⟨?_, by rw [call_stale s c hp]; exact h.2⟩
+  unfold call
+  cases hs : step s (.call c) with
+  | none => exact h.1
+  | some s' => exact inv_step h.1 hs
+
+theorem P_decHandle (t h b num : Nat) (s1 : St) (fs : List Bool) (hP : P s1) : P (decHandle t h b num s1 fs).1 := by
+  unfold decHandle
+  cases pop fs with
+  | mk f3 fs3 =>
+  dsimp only
+  split
+  · exact hP
+  · split
+    · exact hP
+    · cases pop fs3 with
+      | mk f4 fs4 =>
+      dsimp only
+      split
+      · exact hP
+      · exact P_call _ (by intro h n hc; cases hc) hP
+
+theorem P_relBlock (imm : Bool) (t h b : Nat) (s : St) (fs : List Bool) (hP : P s) : P (relBlock imm t h b s fs).1 := by
+  unfold relBlock
+  cases pop fs with
+  | mk f1 fs1 =>
+  dsimp only
+  split
+  · exact hP
+  · split
+    · exact hP
+    · split
+      · exact hP
+      · split
+        · exact hP
+        · cases pop fs1 with
+          | mk f2 fs2 =>
+          dsimp only
+          split
+          · exact hP
+          · apply P_decHandle
+            apply P_call _ _ hP
+            intro h' n hc
+            unfold blockWriteCall at hc
+            dsimp only at hc
+            split at hc <;> cases hc
+
+theorem P_relBlocks (imm : Bool) (t h : Nat) : ∀ (order : List Nat) (s : St) (fs : List Bool), P s →
+    P (relBlocks imm t h order s fs).1
+  | [], s, fs, hP => by simpa [relBlocks] using hP
+  | b :: bs, s, fs, hP => by
+    have h1 := P_relBlock imm t h b s fs hP
+    unfold relBlocks
+    cases hr : relBlock imm t h b s fs with
+    | mk s1 rest =>
+    cases rest with
+    | mk fs1 e =>
+    rw [hr] at h1
+    cases e with
+    | true => exact h1
+    | false => exact P_relBlocks imm t h bs s1 fs1 h1
+
+theorem P_relByHandleSeq (imm : Bool) (t h : Nat) (order : List Nat) (s : St) (fs : List Bool) (hP : P s) :
+    P (relByHandleSeq imm t h order s fs).1 := by
+  unfold relByHandleSeq
+  cases pop fs with
+  | mk f0 fs0 =>
+  dsimp only
+  split
+  · exact hP
+  · split
+    · exact hP
+    · have := P_relBlocks imm t h order s fs0 hP
+      cases hr : relBlocks imm t h order s fs0 with
+      | mk s1 rest =>
+      cases rest with
+      | mk fs1 e =>
+      rw [hr] at this
+      cases e <;> exact this
+
+/-- The visiting order covers every block the handle has a non-zero count for. -/
+def Covers (s : St) (h : Nat) (order : List Nat) : Prop := ∀ b, hcount s h b ≠ 0 → b ∈ order
+
+theorem P_ge {s : St} (hP : P s) (h : Nat) (hh : h ≠ 0) (b : Nat) : liveAt s b h ≤ hcount s h b := by
+  have := hP.1.2 hP.2 h b hh
+  omega
+
+/-- One `ReleaseByHandle(h)` that does not fail leaves no address of `h` in any block;
+and it never adds live addresses for any handle. -/
+theorem relByHandle_spec (imm : Bool) (t h : Nat) (hh : h ≠ 0) (order : List Nat) (s : St) (fs : List Bool)
+    (hP : P s) (hc : Covers s h order) :
+    (∀ b h', liveAt (relByHandleSeq imm t h order s fs).1 b h' ≤ liveAt s b h') ∧
+    ((relByHandleSeq imm t h order s fs).2.2 ≠ RelRes.err →
+      ∀ b, liveAt (relByHandleSeq imm t h order s fs).1 b h = 0) := by
+  unfold relByHandleSeq
+  cases pop fs with
+  | mk f0 fs0 =>
+  dsimp only
+  split
+  · exact ⟨fun _ _ => Nat.le_refl _, fun hne => absurd rfl hne⟩
+  · split
+    · rename_i hn
+      refine ⟨fun _ _ => Nat.le_refl _, fun _ b => ?_⟩
+      have := P_ge hP h hh b
+      simp [hcount, hn] at this
+      exact this
+    · have sp := relBlocks_spec imm t h order s fs0
+      cases hr : relBlocks imm t h order s fs0 with
+      | mk s1 rest =>
+      cases rest with
+      | mk fs1 e =>
+      rw [hr] at sp
+      simp only at sp
+      cases e with
+      | true => exact ⟨sp.2.1, fun hne => absurd rfl hne⟩
+      | false =>
+        refine ⟨sp.2.1, fun _ b => ?_⟩
+        by_cases hin : b ∈ order
+        · exact sp.2.2 rfl b hin
+        · have hz : hcount s h b = 0 := by
+            rcases Nat.eq_zero_or_pos (hcount s h b) with z | z
+            · exact z
+            · exact absurd (hc b (by omega)) hin
+          have := P_ge hP h hh b
+          rw [liveAt_of_blk (sp.1 b hin)]
+          omega
+
+
 end CalicoVerif.C38
